@@ -1,0 +1,32 @@
+//go:build verif
+// +build verif
+
+// Per-client views for the verification harness (property C17, see /verif): the DC table and
+// address a client holds, and a way to run tryToProcessErr on a client made by NewMTProto that
+// was never connected.  Compiled only with `-tags verif`; nothing here is used by the library.
+
+package mtproto
+
+// VerifClientDCList returns a copy of the DC table this client holds.
+func (m *MTProto) VerifClientDCList() map[int]string {
+	res := make(map[int]string, len(m.dclist))
+	for k, v := range m.dclist {
+		res[k] = v
+	}
+	return res
+}
+
+// VerifClientAddr returns the address this client would connect to.
+func (m *MTProto) VerifClientAddr() string {
+	return m.addr
+}
+
+// VerifClientProcessErr runs the real tryToProcessErr on this client.  A client that was never
+// connected has no routines to stop, so Disconnect gets a no-op.  Reconnect, when reached, dials
+// the new address for real: the caller makes sure that address cannot be resolved (no port).
+func (m *MTProto) VerifClientProcessErr(e *ErrResponseCode) error {
+	if m.stopRoutines == nil {
+		m.stopRoutines = func() {}
+	}
+	return m.tryToProcessErr(e)
+}
